@@ -3,7 +3,13 @@ package main
 // splitmix64: every random choice of a run derives from one state.
 type RNG struct{ s uint64 }
 
-func NewRNG(seed uint64) *RNG { return &RNG{s: seed*0x9E3779B97F4A7C15 + 0x1234567} }
+func NewRNG(seed uint64) *RNG {
+	// mix the seed so that neighbouring seeds give unrelated streams
+	z := seed + 0x1234567
+	z = (z ^ (z >> 30)) * 0xBF58476D1CE4E5B9
+	z = (z ^ (z >> 27)) * 0x94D049BB133111EB
+	return &RNG{s: z ^ (z >> 31)}
+}
 
 func (r *RNG) U64() uint64 {
 	r.s += 0x9E3779B97F4A7C15
@@ -23,4 +29,4 @@ func (r *RNG) Chance(p int) bool { return r.Intn(100) < p }
 func (r *RNG) Pick(xs []string) string {
 	return xs[r.Intn(len(xs))]
 }
-func (r *RNG) Fork() *RNG { return &RNG{s: r.U64()} }
+func (r *RNG) Fork() *RNG { return NewRNG(r.U64()) }
